@@ -5,6 +5,8 @@ import ObiVerif.Model.TaxLoad
 import ObiVerif.Lemmas.TaxIter
 import ObiVerif.Lemmas.TaxStr
 import ObiVerif.Lemmas.TaxLoad
+import ObiVerif.Model.TaxSeq
+import ObiVerif.Lemmas.TaxSeq
 /-!
 # C14 — taxonomy queries agree with the tree (property theorems)
 
@@ -636,6 +638,192 @@ theorem loadNodes_panic (good : List (List Bytes)) (decl : List (Nat × Nat × B
     (hu : ∀ f ∈ bad.take 2, num f ≠ .error .unmodelled) :
     loadNodeRecs (good ++ bad :: rest) [] = .error .panic :=
   loadNodeRecs_panic good decl [] bad rest hg hb hu
+
+/-! ## 11. the sequence predicates, methods and workers resolve merged taxids exactly like the node level functions
+
+`sequence_predicate.go`, `sequence_methods.go`, `sequence_workers.go`, `obigrep/options.go`: every closure starts
+with `taxonomy.Taxon(sequence.Taxid())`.  For a sequence annotated with a merged taxid `tid` (or an alias of an
+alias, …) whose current taxid is `x` (`resolve t tid = some x`) each predicate / annotation answers exactly what it
+answers for a sequence annotated with `x`; sections 5 and 6 say what that answer is in terms of the tree.  (A seeded
+regression that looks `tid` up in the `nodes` map only breaks the first clause of `seq_predicates_alias`.) -/
+
+section
+open ObiVerif.TaxLoad ObiVerif.TaxSeq
+
+/-- `Taxon` is idempotent: the taxid a merged taxid resolves to resolves to itself -/
+theorem taxon_idempotent (ha : AliasOK t) {tid x : Nat} (h : resolve t tid = some x) : resolve t x = some x :=
+  resolve_idem ha h
+
+/-- `IsAValidTaxon`: true exactly for the taxids that resolve; with auto-correction a merged taxid is rewritten
+into the current one (`SetTaxid`: a taxid below 1 is stored as 1), after which the sequence is left alone -/
+theorem isValidTaxon_alias (ha : AliasOK t) {tid x : Nat} (h : resolve t tid = some x) :
+    isValidTaxon t tid = true ∧ isValidTaxon t x = true ∧
+    isValidTaxonFix t false tid = (true, none) ∧
+    isValidTaxonFix t true tid = (true, if x ≠ tid then some (setTaxid x) else none) ∧
+    (1 ≤ x → isValidTaxonFix t true (setTaxid x) = (true, none)) := by
+  have hx := resolve_idem ha h
+  refine ⟨by simp [isValidTaxon, h], by simp [isValidTaxon, hx], by simp [isValidTaxonFix, h],
+    by simp [isValidTaxonFix, h], ?_⟩
+  intro h1
+  have : setTaxid x = x := by unfold setTaxid; rw [if_neg]; omega
+  simp [isValidTaxonFix, this, hx]
+
+theorem isValidTaxon_unknown {tid : Nat} (h : resolve t tid = none) :
+    isValidTaxon t tid = false ∧ ∀ b, isValidTaxonFix t b tid = (false, none) := by
+  simp [isValidTaxon, isValidTaxonFix, h]
+
+/-- `Taxonomy.IsSubCladeOf(clade)` is `--restrict-to-taxon clade`, `Taxonomy.HasRequiredRank(r)` is `--require-rank r` -/
+theorem isSubCladeOfPred_eq_restrictTo (clade tid : Nat) :
+    isSubCladeOfPred t fuel clade tid = restrictTo t fuel [clade] tid := by
+  unfold isSubCladeOfPred restrictTo
+  cases hc : resolve t clade with
+  | none => simp [resolveAll, hc]
+  | some c =>
+    simp only [resolveAll, hc, anyClade]
+    cases inClade t fuel c tid with
+    | error e => rfl
+    | ok b => cases b <;> rfl
+
+theorem hasRequiredRankPred_eq_requireRanks (r : String) (tid : Nat) :
+    hasRequiredRankPred t fuel r tid = requireRanks t fuel [r] tid := by
+  unfold hasRequiredRankPred requireRanks
+  by_cases h : (rankList t).contains r = true
+  · simp only [h, if_true, List.all_cons, List.all_nil, Bool.and_true, allRanks]
+    cases hasRank t fuel r tid with
+    | error e => rfl
+    | ok b => cases b <;> rfl
+  · have h' : (rankList t).contains r = false := Bool.eq_false_iff.2 h
+    simp only [h', List.all_cons, List.all_nil, Bool.and_true]
+    rfl
+
+/-- `Taxonomy.IsSubCladeOf(clade)(sequence)` in terms of the tree: fatal for an unknown clade, else true exactly
+when the taxid of the sequence resolves (merged taxids included) to a taxon of the clade -/
+theorem isSubCladeOfPred_spec (wf : WF t root depth) (hf : FuelOK t fuel) (ha : AliasOK t) (clade tid : Nat) :
+    (resolve t clade = none → isSubCladeOfPred t fuel clade tid = .error .fatal) ∧
+    (∀ c, resolve t clade = some c → ∃ b, isSubCladeOfPred t fuel clade tid = .ok b ∧
+      (b = true ↔ ∃ x, resolve t tid = some x ∧ Anc t c x)) := by
+  rw [isSubCladeOfPred_eq_restrictTo]
+  obtain ⟨h1, h2⟩ := restrictTo_spec wf hf ha [clade] tid
+  constructor
+  · intro h; exact h1 ⟨clade, by simp, h⟩
+  · intro c hc
+    obtain ⟨b, hb, hiff⟩ := h2 (by intro c' hc'; simp at hc'; subst hc'; simp [hc])
+    refine ⟨b, hb, ?_⟩
+    rw [hiff]
+    constructor
+    · rintro ⟨x, hx, c1, hc1, c', hcc, hanc⟩
+      simp at hc1; subst hc1
+      rw [hc] at hcc; cases hcc
+      exact ⟨x, hx, hanc⟩
+    · rintro ⟨x, hx, hanc⟩
+      exact ⟨x, hx, clade, by simp, c, hc, hanc⟩
+
+/-- the predicates do not see whether the sequence carries a merged taxid or its current taxid -/
+theorem seq_predicates_alias (ha : AliasOK t) {tid x : Nat} (h : resolve t tid = some x) :
+    (∀ clade, isSubCladeOfPred t fuel clade tid = isSubCladeOfPred t fuel clade x) ∧
+    (∀ clades, restrictTo t fuel clades tid = restrictTo t fuel clades x) ∧
+    (∀ clades, ignoreTaxon t fuel clades tid = ignoreTaxon t fuel clades x) ∧
+    (∀ r, hasRequiredRankPred t fuel r tid = hasRequiredRankPred t fuel r x) ∧
+    (∀ ranks, requireRanks t fuel ranks tid = requireRanks t fuel ranks x) ∧
+    (∀ ranks restrict ignore, taxFilter t fuel ranks restrict ignore tid = taxFilter t fuel ranks restrict ignore x) ∧
+    (∀ slot, inCladeSlot t fuel slot tid = inCladeSlot t fuel slot x) ∧
+    (∀ s, inCladeSlotStr t fuel s tid = inCladeSlotStr t fuel s x) := by
+  have hx := resolve_idem ha h
+  have hslot : ∀ slot, inCladeSlot t fuel slot tid = inCladeSlot t fuel slot x := by
+    intro slot; cases slot with
+    | none => rfl
+    | some c => simp [inCladeSlot, h, hx]
+  refine ⟨?_, ?_, ?_, ?_, ?_, ?_, hslot, fun s => hslot _⟩
+  · intro clade; simp only [isSubCladeOfPred, inClade_alias ha h]
+  · intro clades; simp only [restrictTo, anyClade_alias ha h]
+  · intro clades; simp only [ignoreTaxon, restrictTo, anyClade_alias ha h]
+  · intro r; simp only [hasRequiredRankPred, hasRank_alias ha h]
+  · intro ranks; simp only [requireRanks, allRanks_alias ha h]
+  · intro ranks restrict ignore
+    simp only [taxFilter, allRanks_alias ha h, anyClade_alias ha h]
+
+/-- … nor whether a clade is given by a merged taxid or by its current taxid -/
+theorem seq_predicates_clade_alias (ha : AliasOK t) (tid : Nat) :
+    (∀ clade c, resolve t clade = some c → isSubCladeOfPred t fuel clade tid = isSubCladeOfPred t fuel c tid) ∧
+    (∀ clades rs, resolveAll t clades = .ok rs → restrictTo t fuel clades tid = restrictTo t fuel rs tid ∧
+      ignoreTaxon t fuel clades tid = ignoreTaxon t fuel rs tid) ∧
+    (∀ clade c, resolve t clade = some c → inCladeSlot t fuel (some clade) tid = inCladeSlot t fuel (some c) tid) := by
+  refine ⟨?_, ?_, ?_⟩
+  · intro clade c hc; simp [isSubCladeOfPred, hc, resolve_idem ha hc]
+  · intro clades rs hrs
+    have := resolveAll_resolved ha clades rs hrs
+    simp [ignoreTaxon, restrictTo, hrs, this]
+  · intro clade c hc; simp [inCladeSlot, hc, resolve_idem ha hc]
+
+/-- the annotations (`SetTaxonAtRank`, `MakeSetTaxonAtRankWorker`, `SetSpecies/Genus/Family` and their workers,
+`SetPath` / `MakeSetPathWorker`, `SetScientificName`, `SetTaxonomicRank`) written on a sequence carrying a merged
+taxid are those written on a sequence carrying its current taxid -/
+theorem seq_annotations_alias (ha : AliasOK t) {tid x : Nat} (h : resolve t tid = some x) (name rank : Nat → Bytes) :
+    (∀ r, setTaxonAtRank t fuel r tid = setTaxonAtRank t fuel r x) ∧
+    (∀ r, setTaxonAtRankAnn t fuel name r tid = setTaxonAtRankAnn t fuel name r x) ∧
+    (∀ r, setTaxonAtRankWorker t fuel name r tid = setTaxonAtRankWorker t fuel name r x) ∧
+    setSpecies t fuel name tid = setSpecies t fuel name x ∧
+    setGenus t fuel name tid = setGenus t fuel name x ∧
+    setFamily t fuel name tid = setFamily t fuel name x ∧
+    setPath t fuel name rank tid = setPath t fuel name rank x ∧
+    setScientificName t name tid = setScientificName t name x ∧
+    setTaxonomicRank t rank tid = setTaxonomicRank t rank x := by
+  have hx := resolve_idem ha h
+  have h1 : ∀ r, setTaxonAtRank t fuel r tid = setTaxonAtRank t fuel r x := by
+    intro r; simp [setTaxonAtRank, h, hx]
+  have h2 : ∀ r, setTaxonAtRankAnn t fuel name r tid = setTaxonAtRankAnn t fuel name r x := by
+    intro r; simp only [setTaxonAtRankAnn, h1]
+  refine ⟨h1, h2, ?_, h2 _, h2 _, h2 _, ?_, ?_, ?_⟩
+  · intro r; simp only [setTaxonAtRankWorker, h2]
+  · simp [setPath, h, hx]
+  · simp [setScientificName, h, hx]
+  · simp [setTaxonomicRank, h, hx]
+
+/-- what the annotations are, in terms of the node level functions of sections 1 and 3 -/
+theorem seq_annotations_spec (name rank : Nat → Bytes) (tid : Nat) :
+    (∀ r, setTaxonAtRankWorker t fuel name r tid =
+      if (rankList t).contains r then setTaxonAtRankAnn t fuel name r tid else .error .fatal) ∧
+    (∀ r, setTaxonAtRankAnn t fuel name r tid = match resolve t tid with
+      | none => .ok none
+      | some x => match taxonAtRank t r fuel x with
+        | .ok none => .ok (some (none, [78, 65]))
+        | .ok (some z) => .ok (some (some z, name z))
+        | .error e => .error e) ∧
+    setScientificName t name tid = (match resolve t tid with | none => .error .fatal | some x => .ok (name x)) ∧
+    setTaxonomicRank t rank tid = (match resolve t tid with | none => .error .fatal | some x => .ok (rank x)) := by
+  refine ⟨fun r => rfl, ?_, rfl, rfl⟩
+  intro r
+  unfold setTaxonAtRankAnn setTaxonAtRank
+  cases resolve t tid with
+  | none => rfl
+  | some x =>
+    simp only
+    cases taxonAtRank t r fuel x with
+    | error e => rfl
+    | ok o => cases o <;> rfl
+
+/-- the weighted LCA does not see whether a key of `merged_taxid` is a merged taxid or its current taxid -/
+theorem weightedLca_alias (ha : AliasOK t) (kws : List (Nat × Nat)) :
+    weightedLca t fuel (resolveKeys t kws) = weightedLca t fuel kws := by
+  simp only [weightedLca, taxDist_resolveKeys ha]
+
+-- non-vacuity / tests on the example taxonomy (9 -> 3, 10 -> 9 -> 3 are merged taxids, 77 is unknown)
+example : isSubCladeOfPred exT 6 2 10 = .ok true ∧ isSubCladeOfPred exT 6 2 3 = .ok true ∧ isSubCladeOfPred exT 6 5 9 = .ok false ∧
+    isSubCladeOfPred exT 6 9 10 = .ok true ∧ isSubCladeOfPred exT 6 2 77 = .ok false ∧ isSubCladeOfPred exT 6 77 3 = .error .fatal ∧
+    isSubCladeOfPred exT 6 1 1 = .ok true := ⟨rfl, rfl, rfl, rfl, rfl, rfl, rfl⟩
+example : isValidTaxonFix exT true 10 = (true, some 3) ∧ isValidTaxonFix exT false 10 = (true, none) ∧
+    isValidTaxonFix exT true 3 = (true, none) ∧ isValidTaxonFix exT true 77 = (false, none) := by decide
+example : setGenus exT 6 (fun x => [110] ++ showNat x) 10 = .ok (some (some 2, [110, 50])) ∧
+    setFamily exT 6 (fun _ => []) 9 = .ok (some (none, [78, 65])) ∧ setSpecies exT 6 (fun _ => []) 77 = .ok none ∧
+    setTaxonAtRankWorker exT 6 (fun _ => []) "order" 3 = .error .fatal ∧
+    setScientificName exT (fun x => showNat x) 10 = .ok [51] ∧ setScientificName exT (fun x => showNat x) 77 = .error .fatal := by
+  refine ⟨by decide, by decide, by decide, by decide, by decide, by decide⟩
+example : (∀ clade, isSubCladeOfPred exT 6 clade 10 = isSubCladeOfPred exT 6 clade 3) :=
+  (seq_predicates_alias (fuel := 6) exT_aliasOK (tid := 10) (x := 3) (by decide)).1
+example : weightedLca exT 6 (resolveKeys exT [(10, 2), (4, 1)]) = weightedLca exT 6 [(10, 2), (4, 1)] :=
+  weightedLca_alias exT_aliasOK _
+
+end
 
 /-! non-vacuity and tests of the new sections on concrete values -/
 
